@@ -111,6 +111,21 @@ CHECKS["C12"] = _core("C12", "programs with one fault planted under 0..4 nested 
                       "compared with the error's trace and with the lines quoted in the rendered message",
                       "DESIGN.md §5 C12", "Compile-error positions are checked in C10's block-prefix part.")
 
+CHECKS["C18"] = dict(
+    category="model_checking",
+    text="Modules.tla specifies import/export/caching as a state machine (cache absent/in-progress/loaded, exports, log). TLC "
+         "enumerates 96 000 module graphs on three modules (every ordered dependency list incl. cycles and self-imports x "
+         "failure placement in body/@test/@main x mixes of import form, file/dir/both, guards, run_import_tests, host root "
+         "lists with re-import and a second run on the same runtime), checks RunOnce, OrderTopTestsMain, FailedAbsent and "
+         "NothingInProgressAtEnd on the model for each, and a sample is materialised on disk and replayed: the printed log must "
+         "equal the model's and the host's exports must be restored. export_top_level_ids is checked against the KotoCore "
+         "machine's final top-level environment.",
+    design_ref="DESIGN.md §5 C18",
+    note="Module bodies come from one template; repeated imports are issued from separate function scopes/runs (duplicate "
+         "`import m` in one scope is unspecified).",
+    technique="TLC-enumerated module graphs (Modules.tla) materialised and replayed; KotoCore oracle for export_top_level_ids",
+    engine="modules")
+
 NOT_APPLICABLE = {
     "C20": "Codec fidelity of JSON/YAML/TOML text and two serde visitors: no state machine, and the value domain that "
            "matters (string escapes, full i64 range, float text) is outside what TLC can represent; a TLA+ model would "
@@ -158,6 +173,8 @@ def main():
         "engines": [
             {"name": "chunkcfg", "path": "spec/ChunkCfg.tla", "serves_properties": ["C05"],
              "kind_free_text": "TLA+ abstract interpreter whose input is real decoded bytecode; TLC explores every path"},
+            {"name": "modules", "path": "spec/Modules.tla", "serves_properties": ["C18"],
+             "kind_free_text": "TLA+ state machine of the module cache; TLC enumerates module graphs and predicts the log of two host runs"},
             {"name": "kotovm", "path": "spec/KotoVm.tla", "serves_properties": ["C04", "C07", "C08"],
              "kind_free_text": "TLA+ specification of the VM's control state; hook events of real executions are folded through its actions (Trace_KotoVm.tla)"},
             {"name": "session", "path": "spec/Session.tla", "serves_properties": ["C07"],
